@@ -37,7 +37,7 @@ Definition construct (can : bool) (m : mem) (th : option nat) (dst : nat) (v : Z
   | Out => Err OutOfBlock | _ => Err ConstructOverLive end.
 (* state of a source after it has been moved from: a trivially copyable source keeps its value *)
 Definition src_after (keep : bool) (s : slot) : slot := if keep then s else Moved.
-(* ::new (dst) T(std::move(*src)) *)
+(* ::new (dst) T(std::move( *src )) *)
 Definition move_construct (can keep : bool) (m : mem) (th : option nat) (dst src : nat) : out :=
   match m dst, m src with
   | Raw, Live v => let (t, th') := tickc can th in
@@ -179,3 +179,654 @@ Proof.
       * left. exists m', th2. split; [exact E|]. split; [reflexivity|exact P].
       * discriminate T.
 Qed.
+
+Lemma ctor_loop_as_copy : forall n can m th first cur,
+  ctor_loop can m th first cur n =
+  match copy_loop can m th first cur 0 (repeat 0%Z n) with DoneR m' th' _ d => DoneR m' th' 0 d | o => o end.
+Proof.
+  assert (G : forall n can m th first cur si,
+    match copy_loop can m th first cur si (repeat 0%Z n) with DoneR m' th' _ d => DoneR m' th' 0 d | o => o end = ctor_loop can m th first cur n).
+  { induction n as [|n IH]; intros can m th first cur si; cbn [ctor_loop copy_loop repeat]; [reflexivity|].
+    destruct (construct can m th cur 0%Z) as [m1 th1|m1|e]; [apply IH| |reflexivity].
+    destruct (destroy_n m1 first (cur - first)); reflexivity. }
+  intros. symmetry. apply G.
+Qed.
+
+Lemma nth_repeat0 n i : nth i (repeat 0%Z n) 0%Z = 0%Z.
+Proof. revert i. induction n as [|n IH]; intros [|i]; cbn; auto. Qed.
+
+Lemma ctor_loop_spec : forall n can m th first cur,
+  first <= cur -> (forall j, first <= j < cur -> is_live (m j) = true) -> (forall k, k < n -> m (cur + k) = Raw) ->
+  (exists m' th', ctor_loop can m th first cur n = DoneR m' th' 0 (cur + n) /\ throws can th n = false /\
+      (forall j, cur <= j < cur + n -> m' j = Live 0%Z) /\ (forall j, ~ (cur <= j < cur + n) -> m' j = m j)) \/
+  (exists m', ctor_loop can m th first cur n = ThrewR m' /\ throws can th n = true /\
+      (forall j, first <= j < cur + n -> m' j = Raw) /\ (forall j, ~ (first <= j < cur + n) -> m' j = m j)).
+Proof.
+  intros n can m th first cur Hfc Hl Hr. rewrite ctor_loop_as_copy.
+  destruct (copy_loop_spec (repeat 0%Z n) can m th first cur 0 Hfc Hl) as [(m' & th' & E & T & P1 & P2)|(m' & E & T & P1 & P2)].
+  - rewrite repeat_length. exact Hr.
+  - rewrite repeat_length in *. left. exists m', th'. rewrite E. split; [reflexivity|]. split; [exact T|]. split; [|exact P2].
+    intros j Hj. rewrite P1 by lia. rewrite nth_repeat0. reflexivity.
+  - rewrite repeat_length in *. right. exists m'. rewrite E. split; [reflexivity|]. split; [exact T|]. split; assumption.
+Qed.
+
+Lemma move_loop_spec : forall n can keep m th first cur src,
+  first <= cur -> (src + n <= first \/ cur + n <= src) ->
+  (forall j, first <= j < cur -> is_live (m j) = true) ->
+  (forall k, k < n -> m (cur + k) = Raw) ->
+  (forall k, k < n -> is_live (m (src + k)) = true) ->
+  (exists m' th', move_loop can keep m th first cur src n = DoneR m' th' (src + n) (cur + n) /\ throws can th n = false /\
+      (forall j, cur <= j < cur + n -> m' j = m (j - cur + src)) /\
+      (forall j, src <= j < src + n -> m' j = src_after keep (m j)) /\
+      (forall j, ~ (cur <= j < cur + n) -> ~ (src <= j < src + n) -> m' j = m j)) \/
+  (exists m' k, move_loop can keep m th first cur src n = ThrewR m' /\ can = true /\ th = Some k /\ k < n /\
+      (forall j, first <= j < cur + n -> m' j = Raw) /\
+      (forall j, src <= j < src + k -> m' j = src_after keep (m j)) /\
+      (forall j, ~ (first <= j < cur + n) -> ~ (src <= j < src + k) -> m' j = m j)).
+Proof.
+  induction n as [|n IH]; intros can keep m th first cur src Hfc Hdis Hl Hr Hs; cbn [move_loop].
+  - left. exists m, th. rewrite !Nat.add_0_r. split; [reflexivity|]. split.
+    + unfold throws. destruct can, th; reflexivity.
+    + repeat split; intros; try lia; reflexivity.
+  - pose proof (Hr 0 ltac:(lia)) as H0. rewrite Nat.add_0_r in H0.
+    pose proof (Hs 0 ltac:(lia)) as Hv. rewrite Nat.add_0_r in Hv.
+    unfold move_construct. rewrite H0. destruct (m src) as [| |v|] eqn:Es; try discriminate Hv.
+    set (m1 := upd (upd m cur (Live v)) src (src_after keep (Live v))).
+    assert (Hstep : forall th',
+      (exists m' th2, move_loop can keep m1 th' first (S cur) (S src) n = DoneR m' th2 (src + S n) (cur + S n) /\
+          throws can th' n = false /\
+          (forall j, cur <= j < cur + S n -> m' j = m (j - cur + src)) /\
+          (forall j, src <= j < src + S n -> m' j = src_after keep (m j)) /\
+          (forall j, ~ (cur <= j < cur + S n) -> ~ (src <= j < src + S n) -> m' j = m j)) \/
+      (exists m' k, move_loop can keep m1 th' first (S cur) (S src) n = ThrewR m' /\ can = true /\ th' = Some k /\ k < n /\
+          (forall j, first <= j < cur + S n -> m' j = Raw) /\
+          (forall j, src <= j < src + S k -> m' j = src_after keep (m j)) /\
+          (forall j, ~ (first <= j < cur + S n) -> ~ (src <= j < src + S k) -> m' j = m j))).
+    { intros th'.
+      destruct (IH can keep m1 th' first (S cur) (S src)) as [(m' & th2 & E & T & P1 & P2 & P3)|(m' & k & E & Hc & Ht & Hk & P1 & P2 & P3)]; [lia|lia| | | | |].
+      * intros j Hj. unfold m1. destruct (Nat.eq_dec j cur) as [->|]; [updsimp|]. pose proof (Hl j ltac:(lia)). updsimp.
+      * intros k Hk. pose proof (Hr (S k) ltac:(lia)) as Hw. replace (cur + S k) with (S cur + k) in Hw by lia. unfold m1. updsimp.
+      * intros k Hk. pose proof (Hs (S k) ltac:(lia)) as Hw. replace (src + S k) with (S src + k) in Hw by lia. unfold m1. updsimp.
+      * left. exists m', th2. replace (src + S n) with (S src + n) by lia. replace (cur + S n) with (S cur + n) by lia.
+        split; [exact E|]. split; [exact T|]. split; [|split].
+        -- intros j Hj. destruct (Nat.eq_dec j cur) as [->|].
+           ++ rewrite P3 by lia. rewrite Nat.sub_diag. cbn [Nat.add]. rewrite Es. unfold m1. updsimp.
+           ++ rewrite P1 by lia. replace (j - S cur + S src) with (j - cur + src) by lia. unfold m1. updsimp.
+        -- intros j Hj. destruct (Nat.eq_dec j src) as [->|].
+           ++ rewrite P3 by lia. rewrite Es. unfold m1. updsimp.
+           ++ rewrite P2 by lia. unfold m1. f_equal. updsimp.
+        -- intros j Ha Hb. rewrite P3 by lia. unfold m1. updsimp.
+      * right. exists m', k. split; [exact E|]. split; [exact Hc|]. split; [exact Ht|]. split; [exact Hk|]. split; [|split].
+        -- intros j Hj. apply P1. lia.
+        -- intros j Hj. destruct (Nat.eq_dec j src) as [->|].
+           ++ rewrite P3 by lia. rewrite Es. unfold m1. updsimp.
+           ++ rewrite P2 by lia. unfold m1. f_equal. updsimp.
+        -- intros j Ha Hb. rewrite P3 by lia. unfold m1. updsimp. }
+    destruct can; cbn [tickc].
+    + destruct th as [[|k]|]; cbn [tick].
+      * right. destruct (destroy_n_spec (cur - first) m first) as [m2 (E & P1 & P2)]; [intros k Hk; apply Hl; lia|].
+        rewrite E. exists m2, 0. split; [reflexivity|]. split; [reflexivity|]. split; [reflexivity|]. split; [lia|]. split; [|split].
+        -- intros j Hj. destruct (le_lt_dec cur j); [rewrite P2 by lia; replace j with (cur + (j - cur)) by lia; apply Hr; lia|apply P1; lia].
+        -- intros j Hj. lia.
+        -- intros j Ha Hb. apply P2. lia.
+      * destruct (Hstep (Some k)) as [(m' & th2 & E & T & P)|(m' & k' & E & Hc & Ht & Hk & P)].
+        -- left. exists m', th2. split; [exact E|]. split; [rewrite throws_S; exact T|exact P].
+        -- right. injection Ht as <-. exists m', (S k). split; [exact E|]. split; [reflexivity|]. split; [reflexivity|]. split; [lia|exact P].
+      * destruct (Hstep None) as [(m' & th2 & E & T & P)|(m' & k' & E & Hc & Ht & Hk & P)].
+        -- left. exists m', th2. split; [exact E|]. split; [reflexivity|exact P].
+        -- discriminate Ht.
+    + destruct (Hstep th) as [(m' & th2 & E & T & P)|(m' & k' & E & Hc & Ht & Hk & P)].
+      * left. exists m', th2. split; [exact E|]. split; [reflexivity|exact P].
+      * discriminate Hc.
+Qed.
+
+Lemma bitcopy_loop_spec : forall n m th cur src,
+  (src + n <= cur \/ cur + n <= src) ->
+  (forall k, k < n -> m (cur + k) = Raw) -> (forall k, k < n -> is_live (m (src + k)) = true) ->
+  exists m', bitcopy_loop m th cur src n = DoneR m' th (src + n) (cur + n) /\
+    (forall j, cur <= j < cur + n -> m' j = m (j - cur + src)) /\
+    (forall j, ~ (cur <= j < cur + n) -> m' j = m j).
+Proof.
+  induction n as [|n IH]; intros m th cur src Hdis Hr Hs; cbn [bitcopy_loop].
+  - exists m. rewrite !Nat.add_0_r. repeat split; intros; try lia; reflexivity.
+  - pose proof (Hr 0 ltac:(lia)) as H0. rewrite Nat.add_0_r in H0.
+    pose proof (Hs 0 ltac:(lia)) as Hv. rewrite Nat.add_0_r in Hv.
+    unfold bit_copy. rewrite H0. destruct (m src) as [| |v|] eqn:Es; try discriminate Hv.
+    destruct (IH (upd m cur (Live v)) th (S cur) (S src)) as [m' (E & P1 & P2)]; [lia| | |].
+    + intros k Hk. pose proof (Hr (S k) ltac:(lia)) as Hw. replace (cur + S k) with (S cur + k) in Hw by lia. updsimp.
+    + intros k Hk. pose proof (Hs (S k) ltac:(lia)) as Hw. replace (src + S k) with (S src + k) in Hw by lia. updsimp.
+    + exists m'. replace (src + S n) with (S src + n) by lia. replace (cur + S n) with (S cur + n) by lia.
+      split; [exact E|]. split.
+      * intros j Hj. destruct (Nat.eq_dec j cur) as [->|].
+        -- rewrite P2 by lia. rewrite Nat.sub_diag. cbn [Nat.add]. rewrite Es. updsimp.
+        -- rewrite P1 by lia. replace (j - S cur + S src) with (j - cur + src) by lia. updsimp.
+      * intros j Hj. rewrite P2 by lia. updsimp.
+Qed.
+
+Lemma bitreloc_loop_spec : forall n m th cur src,
+  (src + n <= cur \/ cur + n <= src) ->
+  (forall k, k < n -> m (cur + k) = Raw) -> (forall k, k < n -> is_live (m (src + k)) = true) ->
+  exists m', bitreloc_loop m th cur src n = DoneR m' th (src + n) (cur + n) /\
+    (forall j, cur <= j < cur + n -> m' j = m (j - cur + src)) /\
+    (forall j, src <= j < src + n -> m' j = Raw) /\
+    (forall j, ~ (cur <= j < cur + n) -> ~ (src <= j < src + n) -> m' j = m j).
+Proof.
+  induction n as [|n IH]; intros m th cur src Hdis Hr Hs; cbn [bitreloc_loop].
+  - exists m. rewrite !Nat.add_0_r. repeat split; intros; try lia; reflexivity.
+  - pose proof (Hr 0 ltac:(lia)) as H0. rewrite Nat.add_0_r in H0.
+    pose proof (Hs 0 ltac:(lia)) as Hv. rewrite Nat.add_0_r in Hv.
+    unfold bit_reloc. rewrite H0. destruct (m src) as [| |v|] eqn:Es; try discriminate Hv.
+    destruct (IH (upd (upd m cur (Live v)) src Raw) th (S cur) (S src)) as [m' (E & P1 & P2 & P3)]; [lia| | |].
+    + intros k Hk. pose proof (Hr (S k) ltac:(lia)) as Hw. replace (cur + S k) with (S cur + k) in Hw by lia. updsimp.
+    + intros k Hk. pose proof (Hs (S k) ltac:(lia)) as Hw. replace (src + S k) with (S src + k) in Hw by lia. updsimp.
+    + exists m'. replace (src + S n) with (S src + n) by lia. replace (cur + S n) with (S cur + n) by lia.
+      split; [exact E|]. split; [|split].
+      * intros j Hj. destruct (Nat.eq_dec j cur) as [->|].
+        -- rewrite P3 by lia. rewrite Nat.sub_diag. cbn [Nat.add]. rewrite Es. updsimp.
+        -- rewrite P1 by lia. replace (j - S cur + S src) with (j - cur + src) by lia. updsimp.
+      * intros j Hj. destruct (Nat.eq_dec j src) as [->|]; [rewrite P3 by lia; updsimp|apply P2; lia].
+      * intros j Ha Hb. rewrite P3 by lia. updsimp.
+Qed.
+
+Lemma chk_range_true p m a n : (forall k, k < n -> p (m (a + k)) = true) -> chk_range p m a n = true.
+Proof. intros H. unfold chk_range. apply forallb_forall. intros k Hk. apply in_seq in Hk. apply H. lia. Qed.
+Lemma chk_range_elim p m a n : chk_range p m a n = true -> forall k, k < n -> p (m (a + k)) = true.
+Proof. unfold chk_range. intros H k Hk. rewrite forallb_forall in H. apply H. apply in_seq. lia. Qed.
+Lemma is_raw_eq s : is_raw s = true <-> s = Raw. Proof. destruct s; cbn; split; congruence. Qed.
+Lemma in_range_spec a n j : in_range a n j = true <-> a <= j < a + n.
+Proof. unfold in_range. rewrite andb_true_iff, Nat.leb_le, Nat.ltb_lt. tauto. Qed.
+Ltac inr_cases := repeat match goal with |- context [in_range ?a ?n ?j] =>
+  let H := fresh "Hin" in destruct (in_range a n j) eqn:H;
+  [apply in_range_spec in H | assert (~ (a <= j < a + n)) by (rewrite <- in_range_spec; congruence); clear H] end.
+
+Lemma block_ok_true m dst src n :
+  (forall k, k < n -> m (dst + k) = Raw) -> (forall k, k < n -> is_live (m (src + k)) = true) -> block_ok m dst src n = true.
+Proof. intros Hr Hs. unfold block_ok. rewrite !chk_range_true; [reflexivity|exact Hs|]. intros k Hk. apply is_raw_eq. apply Hr. exact Hk. Qed.
+
+Lemma bitcopy_block_spec n m th dst src :
+  (forall k, k < n -> m (dst + k) = Raw) -> (forall k, k < n -> is_live (m (src + k)) = true) ->
+  exists m', bitcopy_block m th dst src n = DoneR m' th (src + n) (dst + n) /\
+    (forall j, dst <= j < dst + n -> m' j = m (j - dst + src)) /\
+    (forall j, ~ (dst <= j < dst + n) -> m' j = m j).
+Proof.
+  intros Hr Hs. unfold bitcopy_block. rewrite block_ok_true by assumption. eexists. split; [reflexivity|].
+  destruct (Nat.ltb_spec 0 n).
+  - split; intros j Hj; unfold block_copy; inr_cases; try lia; reflexivity.
+  - split; intros j Hj; [lia|reflexivity].
+Qed.
+
+Lemma bitreloc_block_spec n m th dst src :
+  (src + n <= dst \/ dst + n <= src) ->
+  (forall k, k < n -> m (dst + k) = Raw) -> (forall k, k < n -> is_live (m (src + k)) = true) ->
+  exists m', bitreloc_block m th dst src n = DoneR m' th (src + n) (dst + n) /\
+    (forall j, dst <= j < dst + n -> m' j = m (j - dst + src)) /\
+    (forall j, src <= j < src + n -> m' j = Raw) /\
+    (forall j, ~ (dst <= j < dst + n) -> ~ (src <= j < src + n) -> m' j = m j).
+Proof.
+  intros Hd Hr Hs. unfold bitreloc_block. rewrite block_ok_true by assumption. eexists. split; [reflexivity|].
+  destruct (Nat.ltb_spec 0 n).
+  - split; [|split]; intros j Hj; try intros Hj2; unfold block_reloc; inr_cases; try lia; reflexivity.
+  - split; [|split]; intros j Hj; try intros Hj2; try lia; reflexivity.
+Qed.
+
+(* ------------------------------------------------------------------------------------------------------------ *)
+(* destroy of objects that are alive (live or moved-from) *)
+Definition alive (s : slot) := match s with Live _ | Moved => true | _ => false end.
+Lemma alive_of_live s : is_live s = true -> alive s = true. Proof. destruct s; cbn; congruence. Qed.
+Lemma destroy_n_alive_spec : forall n m first, (forall k, k < n -> alive (m (first + k)) = true) ->
+  exists m', destroy_n m first n = inl m' /\ (forall j, first <= j < first + n -> m' j = Raw) /\ (forall j, ~ (first <= j < first + n) -> m' j = m j).
+Proof. induction n as [|n IH]; intros m first H; cbn [destroy_n].
+  - exists m. repeat split; intros; try lia; reflexivity.
+  - pose proof (H 0 ltac:(lia)) as H0. rewrite Nat.add_0_r in H0. unfold destroy. destruct (m first) eqn:E; try discriminate.
+    all: destruct (IH (upd m first Raw) (S first)) as [m' (E' & P1 & P2)];
+      [ intros k Hk; pose proof (H (S k) ltac:(lia)) as Hw; replace (first + S k) with (S first + k) in Hw by lia; updsimp
+      | exists m'; split; [exact E'|]; split;
+        [ intros j Hj; destruct (Nat.eq_dec j first) as [->|]; [rewrite P2 by lia; updsimp|apply P1; lia]
+        | intros j Hj; rewrite P2 by lia; updsimp ] ].
+Qed.
+
+(* values read through a source iterator over live objects *)
+Definition val (s : slot) : Z := match s with Live v => v | _ => 0%Z end.
+Definition read_vals (m : mem) (src n : nat) : list Z := map (fun k => val (m (src + k))) (seq 0 n).
+Lemma read_vals_length m src n : length (read_vals m src n) = n.
+Proof. unfold read_vals. rewrite map_length, seq_length. reflexivity. Qed.
+Lemma read_vals_nth m src n k : k < n -> nth k (read_vals m src n) 0%Z = val (m (src + k)).
+Proof. intros H. unfold read_vals. rewrite (nth_indep _ 0%Z (val (m (src + 0)))) by (rewrite map_length, seq_length; lia).
+  change (val (m (src + 0))) with ((fun k => val (m (src + k))) 0). rewrite map_nth. rewrite seq_nth by lia. reflexivity. Qed.
+Lemma live_val s : is_live s = true -> Live (val s) = s. Proof. destruct s; cbn; congruence. Qed.
+
+(* ------------------------------------------------------------------------------------------------------------ *)
+(* the std:: algorithms (C++17/20 builds delegate to them), by their specification: all or nothing for the
+   destination; a throwing move leaves the already moved sources in the moved-from state *)
+Definition th_after (can : bool) (th : option nat) (n : nat) : option nat :=
+  if can then match th with Some k => Some (k - n) | None => None end else th.
+Definition moved_prefix (keep : bool) (m : mem) (src k : nat) : mem :=
+  fun j => if in_range src k j then src_after keep (m j) else m j.
+Definition fill0 (m : mem) (dst n : nat) : mem := fun j => if in_range dst n j then Live 0%Z else m j.
+Definition std_copy_n (can : bool) (m : mem) (th : option nat) (dst src n : nat) : outc :=
+  if block_ok m dst src n then
+    if throws can th n then ThrewR m else DoneR (block_copy m dst src n) (th_after can th n) (src + n) (dst + n)
+  else ErrR ConstructOverLive.
+Definition std_move_n (can keep : bool) (m : mem) (th : option nat) (dst src n : nat) : outc :=
+  if block_ok m dst src n then
+    if throws can th n then ThrewR (moved_prefix keep m src (match th with Some k => k | None => 0 end))
+    else DoneR (moved_prefix keep (block_copy m dst src n) src n) (th_after can th n) (src + n) (dst + n)
+  else ErrR ConstructOverLive.
+Definition std_ctor_n (can : bool) (m : mem) (th : option nat) (dst n : nat) : outc :=
+  if chk_range is_raw m dst n then
+    if throws can th n then ThrewR m else DoneR (fill0 m dst n) (th_after can th n) 0 (dst + n)
+  else ErrR ConstructOverLive.
+
+(* ------------------------------------------------------------------------------------------------------------ *)
+(* the algorithms, per variant.  The category guard: bit copies only for the categories ImplModeFactory allows *)
+Definition allowed (bit_ok : bool) (v : variant) : bool :=
+  match v with MemMove | MemMoveInALoop => bit_ok | _ => true end.
+
+Definition uninit_copy_n (v : variant) (c : cat) (m : mem) (th : option nat) (dst src n : nat) : outc :=
+  if allowed (tc c) v then
+    match v with
+    | Generic => copy_loop (copy_throws c) m th dst dst src (read_vals m src n)
+    | MemMoveInALoop => bitcopy_loop m th dst src n
+    | MemMove => bitcopy_block m th dst src n
+    | StdSpec => std_copy_n (copy_throws c) m th dst src n
+    end
+  else ErrR AssignDead.
+Definition uninit_move_n (v : variant) (c : cat) (m : mem) (th : option nat) (dst src n : nat) : outc :=
+  if allowed (tc c) v then
+    match v with
+    | Generic => move_loop (move_throws c) (tc c) m th dst dst src n
+    | MemMoveInALoop => bitcopy_loop m th dst src n
+    | MemMove => bitcopy_block m th dst src n
+    | StdSpec => std_move_n (move_throws c) (tc c) m th dst src n
+    end
+  else ErrR AssignDead.
+(* value construction: trivial types are filled with T() (std::fill_n), others constructed one by one *)
+Definition uninit_value_n (v : variant) (c : cat) (m : mem) (th : option nat) (dst n : nat) : outc :=
+  if td c then (if chk_range is_raw m dst n then DoneR (fill0 m dst n) th 0 (dst + n) else ErrR ConstructOverLive)
+  else match v with StdSpec => std_ctor_n (ctor_throws c) m th dst n | _ => ctor_loop (ctor_throws c) m th dst dst n end.
+(* default construction: nothing to do for a trivially default constructible type except returning first + n *)
+Definition uninit_default_n (v : variant) (c : cat) (m : mem) (th : option nat) (dst n : nat) : outc :=
+  if td c then DoneR m th 0 (dst + n)
+  else match v with StdSpec => std_ctor_n (ctor_throws c) m th dst n | _ => ctor_loop (ctor_throws c) m th dst dst n end.
+(* uninitialized_relocate_n: [v] is the mode chosen with is_trivially_relocatable, [inner] the variant of the
+   amc::uninitialized_move_n called by the Default mode (memory.hpp:469-474: move_n, then destroy_n of the sources;
+   there is no try/catch here: a throw of move_n propagates before any source is destroyed).
+   [StdSpec] = the specification: std::uninitialized_move_n followed by std::destroy_n. *)
+Definition uninit_relocate_n (v inner : variant) (c : cat) (m : mem) (th : option nat) (dst src n : nat) : outc :=
+  if allowed (tr c) v then
+    match v with
+    | MemMoveInALoop => bitreloc_loop m th dst src n
+    | MemMove => bitreloc_block m th dst src n
+    | _ => match uninit_move_n (match v with StdSpec => StdSpec | _ => inner end) c m th dst src n with
+           | DoneR m1 th1 s d => match destroy_n m1 src n with inl m2 => DoneR m2 th1 s d | inr e => ErrR e end
+           | o => o end
+    end
+  else ErrR AssignDead.
+(* relocate_at (memory.hpp:415-434,520-525) *)
+Definition relocate_at (c : cat) (m : mem) (th : option nat) (dst src : nat) : outc :=
+  if tr c then match bit_reloc m dst src with inl m1 => DoneR m1 th (S src) (S dst) | inr e => ErrR e end
+  else match move_construct (move_throws c) (tc c) m th dst src with
+       | Done m1 th1 => match destroy m1 src with inl m2 => DoneR m2 th1 (S src) (S dst) | inr e => ErrR e end
+       | Threw m1 => ThrewR m1 | Err e => ErrR e end.
+
+(* ------------------------------------------------------------------------------------------------------------ *)
+(* theorems *)
+(* precondition of every two-range algorithm: disjoint ranges, raw destination, live sources *)
+Definition pre (m : mem) (dst src n : nat) : Prop :=
+  (src + n <= dst \/ dst + n <= src) /\ (forall k, k < n -> m (dst + k) = Raw) /\ (forall k, k < n -> is_live (m (src + k)) = true).
+Definition throwing_variant (v : variant) : Prop := v = Generic \/ v = StdSpec.
+
+Lemma throws_at can k n : can = true -> k < n -> throws can (Some k) n = true.
+Proof. intros -> H. unfold throws. cbn [andb]. apply Nat.ltb_lt. exact H. Qed.
+
+Theorem uninit_copy_n_equal : forall v c n m th dst src,
+  allowed (tc c) v = true -> pre m dst src n -> throws (copy_throws c) th n = false ->
+  exists m' th', uninit_copy_n v c m th dst src n = DoneR m' th' (src + n) (dst + n) /\
+    (forall j, dst <= j < dst + n -> m' j = m (j - dst + src)) /\
+    (forall j, ~ (dst <= j < dst + n) -> m' j = m j).
+Proof.
+  intros v c n m th dst src Ha (Hd & Hr & Hs) Ht. unfold uninit_copy_n. rewrite Ha. destruct v.
+  - destruct (copy_loop_spec (read_vals m src n) (copy_throws c) m th dst dst src (le_n _)) as [(m' & th' & E & _ & P1 & P2)|(m' & _ & T & _)];
+      rewrite ?read_vals_length in *; [intros; lia|exact Hr| |congruence].
+    exists m', th'. split; [exact E|]. split; [|exact P2].
+    intros j Hj. rewrite P1 by lia. rewrite read_vals_nth by lia. rewrite live_val by (apply Hs; lia). f_equal. lia.
+  - destruct (bitcopy_loop_spec n m th dst src Hd Hr Hs) as [m' (E & P)]. exists m', th. split; [exact E|exact P].
+  - destruct (bitcopy_block_spec n m th dst src Hr Hs) as [m' (E & P)]. exists m', th. split; [exact E|exact P].
+  - unfold std_copy_n. rewrite block_ok_true by assumption. rewrite Ht. eexists. eexists. split; [reflexivity|].
+    split; intros j Hj; unfold block_copy; inr_cases; try lia; reflexivity.
+Qed.
+
+Theorem uninit_copy_n_cleanup : forall v c n m k dst src,
+  throwing_variant v -> pre m dst src n -> copy_throws c = true -> k < n ->
+  exists m', uninit_copy_n v c m (Some k) dst src n = ThrewR m' /\ (forall j, m' j = m j).
+Proof.
+  intros v c n m k dst src Hv (Hd & Hr & Hs) Hc Hk. unfold uninit_copy_n.
+  pose proof (throws_at _ k n Hc Hk) as Ht.
+  destruct Hv as [-> | ->]; cbn [allowed].
+  - destruct (copy_loop_spec (read_vals m src n) (copy_throws c) m (Some k) dst dst src (le_n _)) as [(m' & th' & _ & T & _)|(m' & E & _ & P1 & P2)];
+      rewrite ?read_vals_length in *; [intros; lia|exact Hr|congruence|].
+    exists m'. split; [exact E|]. intros j. destruct (le_lt_dec dst j) as [H1|H1]; [destruct (le_lt_dec (dst + n) j) as [H2|H2]|].
+    + apply P2. lia.
+    + rewrite P1 by lia. replace j with (dst + (j - dst)) by lia. symmetry. apply Hr. lia.
+    + apply P2. lia.
+  - unfold std_copy_n. rewrite block_ok_true by assumption. rewrite Ht. exists m. split; reflexivity.
+Qed.
+
+Theorem uninit_move_n_equal : forall v c n m th dst src,
+  allowed (tc c) v = true -> pre m dst src n -> throws (move_throws c) th n = false ->
+  exists m' th', uninit_move_n v c m th dst src n = DoneR m' th' (src + n) (dst + n) /\
+    (forall j, dst <= j < dst + n -> m' j = m (j - dst + src)) /\
+    (forall j, src <= j < src + n -> m' j = src_after (tc c) (m j)) /\
+    (forall j, ~ (dst <= j < dst + n) -> ~ (src <= j < src + n) -> m' j = m j).
+Proof.
+  intros v c n m th dst src Ha (Hd & Hr & Hs) Ht. unfold uninit_move_n. rewrite Ha. destruct v; cbn [allowed] in Ha.
+  - destruct (move_loop_spec n (move_throws c) (tc c) m th dst dst src (le_n _) Hd) as [(m' & th' & E & _ & P)|(m' & k & _ & Hc & Hth & Hk & _)];
+      [intros; lia|exact Hr|exact Hs| |].
+    + exists m', th'. split; [exact E|exact P].
+    + subst th. rewrite throws_at in Ht by assumption. discriminate Ht.
+  - destruct (bitcopy_loop_spec n m th dst src Hd Hr Hs) as [m' (E & P1 & P2)]. exists m', th. split; [exact E|]. split; [exact P1|]. split.
+    + intros j Hj. rewrite Ha. cbn [src_after]. apply P2. lia.
+    + intros j H1 H2. apply P2. exact H1.
+  - destruct (bitcopy_block_spec n m th dst src Hr Hs) as [m' (E & P1 & P2)]. exists m', th. split; [exact E|]. split; [exact P1|]. split.
+    + intros j Hj. rewrite Ha. cbn [src_after]. apply P2. lia.
+    + intros j H1 H2. apply P2. exact H1.
+  - unfold std_move_n. rewrite block_ok_true by assumption. rewrite Ht. eexists. eexists. split; [reflexivity|].
+    split; [|split]; intros j Hj; try intros Hj2; unfold moved_prefix, block_copy; inr_cases; try lia; reflexivity.
+Qed.
+
+(* on a throw of the k-th move construction: destination as before, the k sources already moved are moved-from
+   (alive, value gone: as for std::uninitialized_move_n there is no roll-back of the moves), nothing else touched *)
+Theorem uninit_move_n_cleanup : forall v c n m k dst src,
+  throwing_variant v -> pre m dst src n -> move_throws c = true -> k < n ->
+  exists m', uninit_move_n v c m (Some k) dst src n = ThrewR m' /\
+    (forall j, src <= j < src + k -> m' j = src_after (tc c) (m j)) /\
+    (forall j, ~ (src <= j < src + k) -> m' j = m j).
+Proof.
+  intros v c n m k dst src Hv (Hd & Hr & Hs) Hc Hk. unfold uninit_move_n.
+  pose proof (throws_at _ k n Hc Hk) as Ht.
+  destruct Hv as [-> | ->]; cbn [allowed].
+  - destruct (move_loop_spec n (move_throws c) (tc c) m (Some k) dst dst src (le_n _) Hd) as [(m' & th' & _ & T & _)|(m' & k' & E & _ & Hth & _ & P1 & P2 & P3)];
+      [intros; lia|exact Hr|exact Hs|congruence|].
+    injection Hth as <-. exists m'. split; [exact E|]. split; [exact P2|].
+    intros j Hj. destruct (le_lt_dec dst j) as [H1|H1]; [destruct (le_lt_dec (dst + n) j) as [H2|H2]|].
+    + apply P3; lia.
+    + rewrite P1 by lia. replace j with (dst + (j - dst)) by lia. symmetry. apply Hr. lia.
+    + apply P3; lia.
+  - unfold std_move_n. rewrite block_ok_true by assumption. rewrite Ht. eexists. split; [reflexivity|].
+    split; intros j Hj; unfold moved_prefix; inr_cases; try lia; reflexivity.
+Qed.
+
+Theorem uninit_value_n_equal : forall v c n m th dst,
+  (forall k, k < n -> m (dst + k) = Raw) -> throws (ctor_throws c) th n = false ->
+  exists m' th', uninit_value_n v c m th dst n = DoneR m' th' 0 (dst + n) /\
+    (forall j, dst <= j < dst + n -> m' j = Live 0%Z) /\ (forall j, ~ (dst <= j < dst + n) -> m' j = m j).
+Proof.
+  intros v c n m th dst Hr Ht. unfold uninit_value_n. destruct (td c).
+  - rewrite chk_range_true by (intros k Hk; apply is_raw_eq; apply Hr; exact Hk). eexists. eexists. split; [reflexivity|].
+    split; intros j Hj; unfold fill0; inr_cases; try lia; reflexivity.
+  - assert (G : exists m' th', ctor_loop (ctor_throws c) m th dst dst n = DoneR m' th' 0 (dst + n) /\
+      (forall j, dst <= j < dst + n -> m' j = Live 0%Z) /\ (forall j, ~ (dst <= j < dst + n) -> m' j = m j)).
+    { destruct (ctor_loop_spec n (ctor_throws c) m th dst dst (le_n _)) as [(m' & th' & E & _ & P)|(m' & _ & T & _)];
+        [intros; lia|exact Hr| |congruence]. exists m', th'. split; [exact E|exact P]. }
+    destruct v; try exact G.
+    unfold std_ctor_n. rewrite chk_range_true by (intros k Hk; apply is_raw_eq; apply Hr; exact Hk). rewrite Ht.
+    eexists. eexists. split; [reflexivity|]. split; intros j Hj; unfold fill0; inr_cases; try lia; reflexivity.
+Qed.
+
+Lemma ctor_cleanup_aux : forall v c n m k dst,
+  (forall j, j < n -> m (dst + j) = Raw) -> ctor_throws c = true -> k < n ->
+  exists m', match v with StdSpec => std_ctor_n (ctor_throws c) m (Some k) dst n | _ => ctor_loop (ctor_throws c) m (Some k) dst dst n end = ThrewR m' /\
+    (forall j, m' j = m j).
+Proof.
+  intros v c n m k dst Hr Hc Hk. pose proof (throws_at _ k n Hc Hk) as Ht.
+  assert (G : exists m', ctor_loop (ctor_throws c) m (Some k) dst dst n = ThrewR m' /\ (forall j, m' j = m j)).
+  { destruct (ctor_loop_spec n (ctor_throws c) m (Some k) dst dst (le_n _)) as [(m' & th' & _ & T & _)|(m' & E & _ & P1 & P2)];
+      [intros; lia|exact Hr|congruence|].
+    exists m'. split; [exact E|]. intros j. destruct (le_lt_dec dst j) as [H1|H1]; [destruct (le_lt_dec (dst + n) j) as [H2|H2]|].
+    + apply P2. lia.
+    + rewrite P1 by lia. replace j with (dst + (j - dst)) by lia. symmetry. apply Hr. lia.
+    + apply P2. lia. }
+  destruct v; try exact G.
+  unfold std_ctor_n. rewrite chk_range_true by (intros i Hi; apply is_raw_eq; apply Hr; exact Hi). rewrite Ht. exists m. split; reflexivity.
+Qed.
+
+Theorem uninit_value_n_cleanup : forall v c n m k dst,
+  td c = false -> (forall j, j < n -> m (dst + j) = Raw) -> ctor_throws c = true -> k < n ->
+  exists m', uninit_value_n v c m (Some k) dst n = ThrewR m' /\ (forall j, m' j = m j).
+Proof. intros v c n m k dst Htd Hr Hc Hk. unfold uninit_value_n. rewrite Htd. apply ctor_cleanup_aux; auto. Qed.
+
+Theorem uninit_default_n_equal : forall v c n m th dst,
+  td c = false -> (forall k, k < n -> m (dst + k) = Raw) -> throws (ctor_throws c) th n = false ->
+  exists m' th', uninit_default_n v c m th dst n = DoneR m' th' 0 (dst + n) /\
+    (forall j, dst <= j < dst + n -> m' j = Live 0%Z) /\ (forall j, ~ (dst <= j < dst + n) -> m' j = m j).
+Proof.
+  intros v c n m th dst Htd Hr Ht. pose proof (uninit_value_n_equal v c n m th dst Hr Ht) as G.
+  unfold uninit_value_n in G. unfold uninit_default_n. rewrite Htd in *. exact G.
+Qed.
+(* trivially default constructible types: nothing is written, and the END of the range is returned *)
+Theorem uninit_default_n_trivial : forall v c n m th dst,
+  td c = true -> uninit_default_n v c m th dst n = DoneR m th 0 (dst + n).
+Proof. intros v c n m th dst Htd. unfold uninit_default_n. rewrite Htd. reflexivity. Qed.
+Theorem uninit_default_n_cleanup : forall v c n m k dst,
+  td c = false -> (forall j, j < n -> m (dst + j) = Raw) -> ctor_throws c = true -> k < n ->
+  exists m', uninit_default_n v c m (Some k) dst n = ThrewR m' /\ (forall j, m' j = m j).
+Proof. intros v c n m k dst Htd Hr Hc Hk. unfold uninit_default_n. rewrite Htd. apply ctor_cleanup_aux; auto. Qed.
+
+(* relocate = move-construct at the destination, then destroy the source; same end state for the bitwise modes *)
+Theorem uninit_relocate_n_equal : forall v inner c n m th dst src,
+  allowed (tr c) v = true -> allowed (tc c) inner = true -> pre m dst src n -> throws (move_throws c) th n = false ->
+  exists m' th', uninit_relocate_n v inner c m th dst src n = DoneR m' th' (src + n) (dst + n) /\
+    (forall j, dst <= j < dst + n -> m' j = m (j - dst + src)) /\
+    (forall j, src <= j < src + n -> m' j = Raw) /\
+    (forall j, ~ (dst <= j < dst + n) -> ~ (src <= j < src + n) -> m' j = m j).
+Proof.
+  intros v inner c n m th dst src Ha Hi Hp Ht. pose proof Hp as (Hd & Hr & Hs). unfold uninit_relocate_n. rewrite Ha.
+  assert (G : forall iv, allowed (tc c) iv = true ->
+    exists m' th', match uninit_move_n iv c m th dst src n with
+                   | DoneR m1 th1 s d => match destroy_n m1 src n with inl m2 => DoneR m2 th1 s d | inr e => ErrR e end
+                   | o => o end = DoneR m' th' (src + n) (dst + n) /\
+      (forall j, dst <= j < dst + n -> m' j = m (j - dst + src)) /\
+      (forall j, src <= j < src + n -> m' j = Raw) /\
+      (forall j, ~ (dst <= j < dst + n) -> ~ (src <= j < src + n) -> m' j = m j)).
+  { intros iv Hiv. destruct (uninit_move_n_equal iv c n m th dst src Hiv Hp Ht) as (m1 & th1 & E & P1 & P2 & P3). rewrite E.
+    destruct (destroy_n_alive_spec n m1 src) as [m2 (E2 & Q1 & Q2)].
+    - intros k Hk. rewrite P2 by lia. pose proof (Hs k Hk) as Hl. destruct (m (src + k)); try discriminate Hl. destruct (tc c); reflexivity.
+    - rewrite E2. exists m2, th1. split; [reflexivity|]. split; [|split].
+      + intros j Hj. rewrite Q2 by lia. apply P1. exact Hj.
+      + exact Q1.
+      + intros j H1 H2. rewrite Q2 by lia. apply P3; assumption. }
+  destruct v.
+  - apply G. exact Hi.
+  - destruct (bitreloc_loop_spec n m th dst src Hd Hr Hs) as [m' (E & P)]. exists m', th. split; [exact E|exact P].
+  - destruct (bitreloc_block_spec n m th dst src Hd Hr Hs) as [m' (E & P)]. exists m', th. split; [exact E|exact P].
+  - apply G. reflexivity.
+Qed.
+
+(* FULL statement of the property for a throw inside uninitialized_relocate_n (only the Default mode constructs
+   anything that can throw): every object created is destroyed (destination raw as before), the sources stay alive,
+   nothing else is touched.  TRUE of the faithful model, with "alive" = within its lifetime: the k sources whose move
+   construction completed are in the moved-from state (their values are gone, exactly as after a failed
+   std::uninitialized_move_n), the others are untouched; no source has been destroyed. *)
+Theorem uninit_relocate_n_cleanup : forall v inner c n m k dst src,
+  throwing_variant v -> throwing_variant inner -> cat_ok c -> pre m dst src n -> move_throws c = true -> k < n ->
+  exists m', uninit_relocate_n v inner c m (Some k) dst src n = ThrewR m' /\
+    (forall j, src <= j < src + k -> m' j = Moved) /\
+    (forall j, ~ (src <= j < src + k) -> m' j = m j) /\
+    (forall j, src <= j < src + n -> alive (m' j) = true).
+Proof.
+  intros v inner c n m k dst src Hv Hi Hok Hp Hc Hk. pose proof Hp as (Hd & Hr & Hs).
+  assert (Htc : tc c = false). { destruct (tc c) eqn:E; [|reflexivity]. destruct (Hok E) as (_ & H). congruence. }
+  assert (G : forall iv, throwing_variant iv -> exists m',
+    match uninit_move_n iv c m (Some k) dst src n with
+    | DoneR m1 th1 s d => match destroy_n m1 src n with inl m2 => DoneR m2 th1 s d | inr e => ErrR e end
+    | o => o end = ThrewR m' /\
+    (forall j, src <= j < src + k -> m' j = Moved) /\ (forall j, ~ (src <= j < src + k) -> m' j = m j) /\
+    (forall j, src <= j < src + n -> alive (m' j) = true)).
+  { intros iv Hiv. destruct (uninit_move_n_cleanup iv c n m k dst src Hiv Hp Hc Hk) as (m' & E & P1 & P2). rewrite E.
+    exists m'. split; [reflexivity|]. rewrite Htc in P1. cbn [src_after] in P1. split; [exact P1|]. split; [exact P2|].
+    intros j Hj. destruct (le_lt_dec (src + k) j).
+    - rewrite P2 by lia. apply alive_of_live. replace j with (src + (j - src)) by lia. apply Hs. lia.
+    - rewrite P1 by lia. reflexivity. }
+  unfold uninit_relocate_n. destruct Hv as [-> | ->]; cbn [allowed]; apply G; [exact Hi|right; reflexivity].
+Qed.
+
+(* same inputs, allowed variants: same final memory, same returned iterators *)
+Theorem variants_agree_relocate : forall v1 i1 v2 i2 c n m th dst src,
+  allowed (tr c) v1 = true -> allowed (tc c) i1 = true -> allowed (tr c) v2 = true -> allowed (tc c) i2 = true ->
+  pre m dst src n -> throws (move_throws c) th n = false ->
+  exists m1 th1 m2 th2, uninit_relocate_n v1 i1 c m th dst src n = DoneR m1 th1 (src + n) (dst + n) /\
+    uninit_relocate_n v2 i2 c m th dst src n = DoneR m2 th2 (src + n) (dst + n) /\ (forall j, m1 j = m2 j).
+Proof.
+  intros v1 i1 v2 i2 c n m th dst src A1 B1 A2 B2 Hp Ht.
+  destruct (uninit_relocate_n_equal v1 i1 c n m th dst src A1 B1 Hp Ht) as (m1 & th1 & E1 & P1 & P2 & P3).
+  destruct (uninit_relocate_n_equal v2 i2 c n m th dst src A2 B2 Hp Ht) as (m2 & th2 & E2 & Q1 & Q2 & Q3).
+  exists m1, th1, m2, th2. split; [exact E1|]. split; [exact E2|]. intros j.
+  destruct (in_range dst n j) eqn:Hd; [apply in_range_spec in Hd; rewrite P1, Q1 by exact Hd; reflexivity|].
+  assert (~ (dst <= j < dst + n)) by (rewrite <- in_range_spec; congruence).
+  destruct (in_range src n j) eqn:Hs; [apply in_range_spec in Hs; rewrite P2, Q2 by exact Hs; reflexivity|].
+  assert (~ (src <= j < src + n)) by (rewrite <- in_range_spec; congruence).
+  rewrite P3, Q3 by assumption. reflexivity.
+Qed.
+Theorem variants_agree_copy : forall v1 v2 c n m th dst src,
+  allowed (tc c) v1 = true -> allowed (tc c) v2 = true -> pre m dst src n -> throws (copy_throws c) th n = false ->
+  exists m1 th1 m2 th2, uninit_copy_n v1 c m th dst src n = DoneR m1 th1 (src + n) (dst + n) /\
+    uninit_copy_n v2 c m th dst src n = DoneR m2 th2 (src + n) (dst + n) /\ (forall j, m1 j = m2 j).
+Proof.
+  intros v1 v2 c n m th dst src A1 A2 Hp Ht.
+  destruct (uninit_copy_n_equal v1 c n m th dst src A1 Hp Ht) as (m1 & th1 & E1 & P1 & P2).
+  destruct (uninit_copy_n_equal v2 c n m th dst src A2 Hp Ht) as (m2 & th2 & E2 & Q1 & Q2).
+  exists m1, th1, m2, th2. split; [exact E1|]. split; [exact E2|]. intros j.
+  destruct (in_range dst n j) eqn:Hd; [apply in_range_spec in Hd; rewrite P1, Q1 by exact Hd; reflexivity|].
+  assert (~ (dst <= j < dst + n)) by (rewrite <- in_range_spec; congruence).
+  rewrite P2, Q2 by assumption. reflexivity.
+Qed.
+Theorem variants_agree_move : forall v1 v2 c n m th dst src,
+  allowed (tc c) v1 = true -> allowed (tc c) v2 = true -> pre m dst src n -> throws (move_throws c) th n = false ->
+  exists m1 th1 m2 th2, uninit_move_n v1 c m th dst src n = DoneR m1 th1 (src + n) (dst + n) /\
+    uninit_move_n v2 c m th dst src n = DoneR m2 th2 (src + n) (dst + n) /\ (forall j, m1 j = m2 j).
+Proof.
+  intros v1 v2 c n m th dst src A1 A2 Hp Ht.
+  destruct (uninit_move_n_equal v1 c n m th dst src A1 Hp Ht) as (m1 & th1 & E1 & P1 & P2 & P3).
+  destruct (uninit_move_n_equal v2 c n m th dst src A2 Hp Ht) as (m2 & th2 & E2 & Q1 & Q2 & Q3).
+  exists m1, th1, m2, th2. split; [exact E1|]. split; [exact E2|]. intros j.
+  destruct (in_range dst n j) eqn:Hd; [apply in_range_spec in Hd; rewrite P1, Q1 by exact Hd; reflexivity|].
+  assert (~ (dst <= j < dst + n)) by (rewrite <- in_range_spec; congruence).
+  destruct (in_range src n j) eqn:Hs; [apply in_range_spec in Hs; rewrite P2, Q2 by exact Hs; reflexivity|].
+  assert (~ (src <= j < src + n)) by (rewrite <- in_range_spec; congruence).
+  rewrite P3, Q3 by assumption. reflexivity.
+Qed.
+
+Theorem relocate_at_spec : forall c m th dst src v,
+  m dst = Raw -> m src = Live v -> dst <> src -> cat_ok c ->
+  (throws (move_throws c) th 1 = false \/ tr c = true ->
+     exists m' th', relocate_at c m th dst src = DoneR m' th' (S src) (S dst) /\ m' dst = Live v /\ m' src = Raw /\
+       (forall j, j <> dst -> j <> src -> m' j = m j)) /\
+  (tr c = false -> move_throws c = true -> th = Some 0 -> exists m', relocate_at c m th dst src = ThrewR m' /\ forall j, m' j = m j).
+Proof.
+  intros c m th dst src v Hd Hs Hne Hok. unfold relocate_at, bit_reloc, move_construct. rewrite Hd, Hs. split.
+  - intros Hc. destruct (tr c) eqn:Etr.
+    + eexists. eexists. split; [reflexivity|]. repeat split; intros; updsimp.
+    + destruct Hc as [Hc|Hc]; [|discriminate Hc]. unfold throws in Hc. unfold tickc.
+      destruct (move_throws c); cbn [andb] in Hc.
+      * destruct th as [[|k]|]; cbn [tick]; try discriminate Hc.
+        all: unfold destroy; replace (upd (upd m dst (Live v)) src (src_after (tc c) (Live v)) src) with (src_after (tc c) (Live v)) by updsimp.
+        all: destruct (tc c); cbn [src_after]; eexists; eexists; (split; [reflexivity|]); repeat split; intros; updsimp.
+      * unfold destroy; replace (upd (upd m dst (Live v)) src (src_after (tc c) (Live v)) src) with (src_after (tc c) (Live v)) by updsimp.
+        destruct (tc c); cbn [src_after]; eexists; eexists; (split; [reflexivity|]); repeat split; intros; updsimp.
+  - intros Etr Hc ->. rewrite Etr, Hc. cbn [tickc tick]. exists m. split; reflexivity.
+Qed.
+
+(* ------------------------------------------------------------------------------------------------------------ *)
+(* selection of the implementation: memory_details::ImplModeFactory (memory.hpp:252-262) and the #ifdef ladders *)
+Inductive itkind := ItPtr | ItRandom | ItBidir | ItForward | ItMovePtr.   (* source iterator; the destination is a pointer *)
+Definition impl_mode (bit_possible : bool) (it : itkind) : variant :=
+  match it with
+  | ItMovePtr => Generic                                        (* reference type is an rvalue reference *)
+  | ItPtr => if bit_possible then MemMove else Generic
+  | _ => if bit_possible then MemMoveInALoop else Generic
+  end.
+Lemma impl_mode_allowed b it : allowed b (impl_mode b it) = true.
+Proof. destruct it, b; reflexivity. Qed.
+
+Inductive algo := ACopyN | ACopy | AMoveN | AMove | AValueN | AValue | ADefaultN | ADefault
+                | ARelocN | AReloc | ARelocAt | ADestroyN | ADestroy | ADestroyAt | AConstructAt.
+Record case := mkcase { c_algo : algo; c_std : nat; c_it : itkind; c_cat : cat; c_n : nat; c_th : option nat }.
+
+(* the element types of the driver *)
+Definition cNTR := {| tc := false; tr := false; td := false; copy_throws := true; move_throws := false; ctor_throws := true |}.
+Definition cTR  := {| tc := false; tr := true;  td := false; copy_throws := true; move_throws := false; ctor_throws := true |}.
+Definition cTM  := {| tc := false; tr := false; td := false; copy_throws := true; move_throws := true;  ctor_throws := true |}.
+Definition cTC  := {| tc := true;  tr := true;  td := false; copy_throws := false; move_throws := false; ctor_throws := false |}.
+Definition cPOD := {| tc := true;  tr := true;  td := true;  copy_throws := false; move_throws := false; ctor_throws := false |}.
+
+(* canonical initial memory: n + 1 live sources 11, 12, ... at SRC, n + 1 raw slots at DST (one guard slot each) *)
+Definition SRC := 10.
+Definition DST := 40.
+Definition init_mem (n : nat) : mem :=
+  fun j => if in_range SRC (S n) j then Live (Z.of_nat (11 + (j - SRC))) else if in_range DST (S n) j then Raw else Out.
+Definition code (s : slot) : Z := match s with Out => -3 | Raw => -1 | Moved => -2 | Live v => v end%Z.
+Definition dump (m : mem) (a n : nat) : list Z := map (fun k => code (m (a + k))) (seq 0 n).
+(* observable: [threw; model error; source advance; destination advance; n+1 destination slots; n+1 source slots] *)
+Definition observe (n : nat) (m0 : mem) (o : outc) : list Z :=
+  match o with
+  | DoneR m _ s d => [0; 0; Z.of_nat (s - SRC); Z.of_nat (d - DST)] ++ dump m DST (S n) ++ dump m SRC (S n)
+  | ThrewR m => [1; 0; -1; -1] ++ dump m DST (S n) ++ dump m SRC (S n)
+  | ErrR _ => [0; 1; -1; -1] ++ dump m0 DST (S n) ++ dump m0 SRC (S n)
+  end%Z.
+
+Definition run_algo (cs : case) (m : mem) : outc :=
+  let c := c_cat cs in let n := c_n cs in let th := c_th cs in let it := c_it cs in
+  let modern := 17 <=? c_std cs in
+  let std_or (v : variant) := if modern then StdSpec else v in
+  let range_mode (v : variant) := match v with Generic => StdSpec | _ => v end in   (* the range versions delegate Default to std:: *)
+  match c_algo cs with
+  | ACopyN => match it with
+              | ItMovePtr => uninit_move_n (std_or Generic) c m th DST SRC n      (* copying through move_iterator moves *)
+              | _ => uninit_copy_n (std_or (impl_mode (tc c) it)) c m th DST SRC n end
+  | ACopy => match it with
+             | ItMovePtr => uninit_move_n StdSpec c m th DST SRC n
+             | _ => uninit_copy_n (std_or (range_mode (impl_mode (tc c) it))) c m th DST SRC n end
+  | AMoveN => uninit_move_n (std_or (impl_mode (tc c) it)) c m th DST SRC n
+  | AMove => uninit_move_n (std_or (range_mode (impl_mode (tc c) it))) c m th DST SRC n
+  | AValueN | AValue => uninit_value_n (std_or Generic) c m th DST n
+  | ADefaultN | ADefault => uninit_default_n (std_or Generic) c m th DST n
+  | ARelocN => uninit_relocate_n (impl_mode (tr c) it) (std_or (impl_mode (tc c) it)) c m th DST SRC n
+  | AReloc => uninit_relocate_n (impl_mode (tr c) it) (std_or (range_mode (impl_mode (tc c) it))) c m th DST SRC n
+  | ARelocAt => relocate_at c m th DST SRC
+  | ADestroyN | ADestroy => match destroy_n m SRC n with inl m' => DoneR m' th (SRC + n) DST | inr e => ErrR e end
+  | ADestroyAt => match destroy m SRC with inl m' => DoneR m' th (S SRC) DST | inr e => ErrR e end
+  | AConstructAt => match construct (copy_throws c) m th DST (val (m SRC)) with
+                    | Done m' th' => DoneR m' th' SRC (S DST) | Threw m' => ThrewR m' | Err e => ErrR e end
+  end.
+Definition result := list Z.
+Definition run_case (cs : case) : result := let m0 := init_mem (c_n cs) in observe (c_n cs) m0 (run_algo cs m0).
+
+(* ------------------------------------------------------------------------------------------------------------ *)
+(* concrete instances (non vacuity) *)
+Example ex_copy_generic : run_case (mkcase ACopyN 11 ItForward cNTR 3 None) = [0; 0; 3; 3; 11; 12; 13; -1; 11; 12; 13; 14]%Z.
+Proof. vm_compute. reflexivity. Qed.
+Example ex_copy_throw : run_case (mkcase ACopyN 14 ItPtr cNTR 3 (Some 2)) = [1; 0; -1; -1; -1; -1; -1; -1; 11; 12; 13; 14]%Z.
+Proof. vm_compute. reflexivity. Qed.
+Example ex_copy_memmove : run_case (mkcase ACopyN 11 ItPtr cTC 3 None) = run_case (mkcase ACopyN 11 ItBidir cTC 3 None)
+  /\ run_case (mkcase ACopyN 11 ItPtr cTC 3 None) = [0; 0; 3; 3; 11; 12; 13; -1; 11; 12; 13; 14]%Z.
+Proof. vm_compute. split; reflexivity. Qed.
+Example ex_move_generic : run_case (mkcase AMoveN 11 ItPtr cNTR 2 None) = [0; 0; 2; 2; 11; 12; -1; -2; -2; 13]%Z.
+Proof. vm_compute. reflexivity. Qed.
+Example ex_move_throw : run_case (mkcase AMoveN 11 ItPtr cTM 3 (Some 2)) = [1; 0; -1; -1; -1; -1; -1; -1; -2; -2; 13; 14]%Z.
+Proof. vm_compute. reflexivity. Qed.
+Example ex_value_throw : run_case (mkcase AValueN 14 ItPtr cTR 3 (Some 1)) = [1; 0; -1; -1; -1; -1; -1; -1; 11; 12; 13; 14]%Z
+  /\ run_case (mkcase AValueN 14 ItPtr cTR 3 None) = [0; 0; 0; 3; 0; 0; 0; -1; 11; 12; 13; 14]%Z.
+Proof. vm_compute. split; reflexivity. Qed.
+Example ex_default_trivial : run_case (mkcase ADefaultN 11 ItPtr cPOD 3 None) = [0; 0; 0; 3; -1; -1; -1; -1; 11; 12; 13; 14]%Z.
+Proof. vm_compute. reflexivity. Qed.
+Example ex_relocate : run_case (mkcase ARelocN 11 ItPtr cNTR 3 None) = [0; 0; 3; 3; 11; 12; 13; -1; -1; -1; -1; 14]%Z
+  /\ run_case (mkcase ARelocN 11 ItPtr cTR 3 None) = run_case (mkcase ARelocN 11 ItPtr cNTR 3 None)
+  /\ run_case (mkcase ARelocN 20 ItForward cTR 3 None) = run_case (mkcase ARelocN 11 ItPtr cNTR 3 None).
+Proof. vm_compute. repeat split; reflexivity. Qed.
+(* a throw of the third move construction: destination raw again, two sources moved-from, the others intact and alive *)
+Example ex_relocate_throw : run_case (mkcase ARelocN 11 ItPtr cTM 3 (Some 2)) = [1; 0; -1; -1; -1; -1; -1; -1; -2; -2; 13; 14]%Z
+  /\ run_case (mkcase ARelocN 17 ItPtr cTM 3 (Some 2)) = run_case (mkcase ARelocN 11 ItPtr cTM 3 (Some 2)).
+Proof. vm_compute. split; reflexivity. Qed.
+(* ... and therefore NOT a roll-back: the values of the sources already moved are lost (as with std::uninitialized_move_n) *)
+Example ex_relocate_no_rollback : exists m', uninit_relocate_n Generic Generic cTM (init_mem 3) (Some 2) DST SRC 3 = ThrewR m' /\ m' SRC <> init_mem 3 SRC.
+Proof. eexists. split; [vm_compute; reflexivity|]. vm_compute. discriminate. Qed.
